@@ -45,9 +45,11 @@ def scenarios(tier):
     S.append(("update-after-restart-behind-a-tombstone", base + ["C 1 remove a", "C 1 snapshot false", "SNAP"] + re_open + ["C 1 set c c2", "C 1 set bb b2"], False))
     S.append(("remove-after-restart-behind-a-tombstone", base + ["C 1 set dddd 4", "C 1 remove bb", "C 1 snapshot false", "SNAP"] + re_open + ["C 1 remove c", "C 1 set dddd four", "C 1 set e new"], False))
     S.append(("update-after-restart-after-reclaim", base + ["C 1 remove a", "C 1 snapshot true", "SNAP"] + re_open + ["C 1 set c c2", "C 1 increment n"], False))
+    # key names that are not ASCII: the in-place update computes its offset from the key's length in BYTES
+    S.append(("in-place-update-of-multibyte-keys", ["C 1 set k\\xc3\\xa9y old", "C 1 set \\xe2\\x82\\xac 5", "C 1 snapshot false", "SNAP", "C 1 set k\\xc3\\xa9y new", "C 1 remove \\xe2\\x82\\xac", "C 1 set a 1b"], False))
     # entries written by the conflict code of an arbiter database (a key parked at the in-conflict version, the conflict's registry key)
     # go through the snapshot writer like any other: a NEW key must be appended, never written in place
-    arb = ["C 1 create-db ta tk arbiter", "C 1 use-db ta tk", "SESS 3", "C 3 use-db ta tk", "C 3 arbiter", "C 1 set a 1", "C 1 set bb 22", "C 1 snapshot false", "SNAP"]
+    arb = ["C 1 create-db ta tk arbiter", "C 1 use-db ta tk", "SESS 3", "C 3 use-db ta tk", "C 3 arbiter", "C 1 set a 1", "C 1 set a 2", "C 1 set bb 22", "C 1 snapshot false", "SNAP"]
     S.append(("arbiter-conflict-on-new-key", arb + ["C 1 set-safe nw 0 x", "C 1 set-safe nw 0 y"], False))
     S.append(("arbiter-conflict-on-persisted-key", arb + ["C 1 set-safe a 0 stale"], False))
     if tier != "quick":
